@@ -24,6 +24,7 @@ CONSTANTS
   MaxConflicts = %(conflicts)d
   CancelIsTimeout = %(cit)s
   RecordScript = %(record)s
+  NetLoss = %(netloss)s
 %(view)s
 INVARIANTS %(invs)s
 %(constraint)s
@@ -40,7 +41,7 @@ def q(xs):
 
 
 def write_cfg(name, ids=("A", "B"), writers=("W1", "W2"), flushers=("F1",), maxw=2, policy="none", thr=2, sizes=(1,),
-              zero=False, reliable=True, faults=0, dups=1, acks=2, grants=True, conflicts=0, view=True, invs=INV_C01, gen=False, mon=False, live=False, cancel_is_timeout=False):
+              zero=False, reliable=True, faults=0, dups=1, acks=2, grants=True, conflicts=0, view=True, invs=INV_C01, gen=False, mon=False, live=False, cancel_is_timeout=False, netloss=False):
     path = os.path.join(SPEC, name)
     with open(path, "w") as f:
         f.write(CFG % dict(ids=q(ids), writers=q(writers), flushers=q(flushers), maxw=maxw, policy=policy, thr=thr,
@@ -48,7 +49,7 @@ def write_cfg(name, ids=("A", "B"), writers=("W1", "W2"), flushers=("F1",), maxw
                            reliable="TRUE" if reliable else "FALSE", faults=faults, dups=dups, acks=acks,
                            grants="TRUE" if grants else "FALSE", conflicts=conflicts,
                            view=("" if live else ("VIEW MView" if mon else "VIEW View")) if view else "", invs=invs,
-                           spec="FairSpec" if live else ("MSpec" if mon else "Spec"), record="FALSE" if live else "TRUE", cit="TRUE" if cancel_is_timeout else "FALSE",
+                           spec="FairSpec" if live else ("MSpec" if mon else "Spec"), record="FALSE" if live else "TRUE", cit="TRUE" if cancel_is_timeout else "FALSE", netloss="TRUE" if netloss else "FALSE",
                            constraint=("PROPERTIES EventuallyDelivered" if live else "") + ("\nCONSTRAINT GenPrint" if gen else "")))
     return name
 
